@@ -6,18 +6,26 @@
 use super::*;
 
 // Oracle = rustdoc of the three `TfIdfMethod` variants (tf_idf_vectorization.rs):
-//   Smooth    : "log(1+n/1+document_frequency) + 1"   -> ln((1+n)/(1+df)) + 1
-//   NonSmooth : "log(n/document_frequency) +1"         -> ln(n/df) + 1   ("division by zero" for df = 0 documented)
-//   Textbook  : "log(n/ 1 + document_frequency)"       -> ln(n/(1+df))
-// `ln` is uninterpreted (ghost_ln64): the ghost table records the argument of every call, so the
-// contract says: exactly ONE logarithm is taken, of exactly the documented quotient, and exactly the
-// documented constant is added to it.  Counts are restricted to <= 2^52 (document counts; every such
-// count and its successor is exact in f64, so "1+n" means the same in integer and in float arithmetic).
+//   Smooth    : "log(1+n/1+document_frequency) + 1"   -> ln((1+n)/(1+df)) + 1 ; "preventing divisions by zero"
+//   NonSmooth : "log(n/document_frequency) +1"         -> ln(n/df) + 1 ; "zero document frequency ... will produce a division by zero"
+//   Textbook  : "log(n/ 1 + document_frequency)"       -> ln(n/(1+df)) ; "prevents divisions by zero"
+// `ln` is uninterpreted (ghost_ln64); its table records the argument of every call.
+//
+// Two layers (measured: CBMC cannot prove two symbolic f64 divisions of the same operands equal - its
+// divider is a relational encoding; 53-bit operands: > 15 min, 8-bit operands: 288 s):
+//  * c17_idf_<method>      class=complete, all n, df <= 2^52: exactly ONE logarithm is taken, the result is that
+//                          logarithm plus exactly the documented constant (1, 1, 0), and the argument of the
+//                          logarithm has the documented division-by-zero behaviour.
+//  * c17_idf_quot_<method> class=bounded, n, df <= C17_Q symbolic: the argument of the logarithm is exactly
+//                          the documented quotient.
+// Counts are restricted to <= 2^52 (every such count and its successor is exact in f64, so "1+n" means the
+// same in integer and in floating point arithmetic).
 const C17_MAXCNT: usize = 1usize << 52;
+const C17_Q: usize = 31;
 
 fn c17_same(a: f64, b: f64) -> bool { a == b || (a.is_nan() && b.is_nan()) }
 
-// @unit class=complete tier=quick mem=light timeout=300 fns=linfa_preprocessing::tf_idf_vectorization::TfIdfMethod::compute_idf
+// @unit class=complete tier=quick mem=light timeout=600 fns=linfa_preprocessing::tf_idf_vectorization::TfIdfMethod::compute_idf
 #[kani::proof]
 #[kani::stub(alloc::fmt::format, fmt_stub)]
 #[kani::stub(f64::ln, ghost_ln64)]
@@ -26,16 +34,17 @@ fn c17_idf_smooth() {
     kani::assume(n <= C17_MAXCNT && df <= C17_MAXCNT);
     let r = TfIdfMethod::Smooth.compute_idf(n, df);
     let (calls, arg, lnv) = unsafe { (H_LN_N, H_LN_A[0], H_LN_R[0]) };
-    assert!(calls == 1);
-    assert!(arg == (1. + n as f64) / (1. + df as f64));
-    assert!(c17_same(r, lnv + 1.));
+    assert!(calls == 1);                                      // exactly one logarithm
+    assert!(c17_same(r, lnv + 1.));                           // ... plus one
+    assert!(arg > 0.0 && arg.is_finite());                    // no division by zero, whatever n and df
+    assert!(r.is_finite());
     kani::cover!(df == 0 && n == 0);
     kani::cover!(df == n && n > 0);
     kani::cover!(df < n);
     kani::cover!(df > n);
 }
 
-// @unit class=complete tier=quick mem=light timeout=300 fns=linfa_preprocessing::tf_idf_vectorization::TfIdfMethod::compute_idf
+// @unit class=complete tier=quick mem=light timeout=600 fns=linfa_preprocessing::tf_idf_vectorization::TfIdfMethod::compute_idf
 #[kani::proof]
 #[kani::stub(alloc::fmt::format, fmt_stub)]
 #[kani::stub(f64::ln, ghost_ln64)]
@@ -43,17 +52,19 @@ fn c17_idf_nonsmooth() {
     let (n, df): (usize, usize) = (kani::any(), kani::any());
     kani::assume(n <= C17_MAXCNT && df <= C17_MAXCNT);
     let r = TfIdfMethod::NonSmooth.compute_idf(n, df);
+    if n == 0 && df == 0 { assert!(r.is_nan()); return; }     // 0/0: the ghost does not record NaN arguments
     let (calls, arg, lnv) = unsafe { (H_LN_N, H_LN_A[0], H_LN_R[0]) };
     assert!(calls == 1);
-    assert!(c17_same(arg, (n as f64) / (df as f64)));
     assert!(c17_same(r, lnv + 1.));
+    if df > 0 { assert!(arg >= 0.0 && arg.is_finite() && (arg == 0.0) == (n == 0)); }
+    if df > 0 && n > 0 { assert!(r.is_finite()); }
+    if df == 0 && n > 0 { assert!(arg == f64::INFINITY && r == f64::INFINITY); }   // the documented division by zero
     kani::cover!(df == 0 && n > 0);
-    kani::cover!(df == 0 && n == 0);
     kani::cover!(df == n && n > 0);
     kani::cover!(0 < df && df < n);
 }
 
-// @unit class=complete tier=quick mem=light timeout=300 fns=linfa_preprocessing::tf_idf_vectorization::TfIdfMethod::compute_idf
+// @unit class=complete tier=quick mem=light timeout=600 fns=linfa_preprocessing::tf_idf_vectorization::TfIdfMethod::compute_idf
 #[kani::proof]
 #[kani::stub(alloc::fmt::format, fmt_stub)]
 #[kani::stub(f64::ln, ghost_ln64)]
@@ -63,10 +74,61 @@ fn c17_idf_textbook() {
     let r = TfIdfMethod::Textbook.compute_idf(n, df);
     let (calls, arg, lnv) = unsafe { (H_LN_N, H_LN_A[0], H_LN_R[0]) };
     assert!(calls == 1);
-    assert!(arg == (n as f64) / (1. + df as f64));
     assert!(c17_same(r, lnv));                                // nothing added
-    kani::cover!(df == 0 && n == 0);
+    assert!(arg >= 0.0 && arg.is_finite() && (arg == 0.0) == (n == 0));   // no division by zero
+    assert!(!r.is_nan());
+    kani::cover!(df == 0 && n == 0 && r == f64::NEG_INFINITY);
     kani::cover!(df + 1 == n);
     kani::cover!(df == n && n > 0);
     kani::cover!(df + 1 < n);
+}
+
+// @unit class=bounded tier=thorough mem=light bound="n,df<=31 (symbolic)" timeout=1200 fns=linfa_preprocessing::tf_idf_vectorization::TfIdfMethod::compute_idf
+#[kani::proof]
+#[kani::stub(alloc::fmt::format, fmt_stub)]
+#[kani::stub(f64::ln, ghost_ln64)]
+fn c17_idf_quot_smooth() {
+    let (n, df): (usize, usize) = (kani::any(), kani::any());
+    kani::assume(n <= C17_Q && df <= C17_Q);
+    let r = TfIdfMethod::Smooth.compute_idf(n, df);
+    let arg = unsafe { H_LN_A[0] };
+    assert!(arg == ((n + 1) as f64) / ((df + 1) as f64));
+    if df == n { assert!(r == 1.0); }                         // "entries that appear in every document ... weight of one"
+    if df < n { assert!(r >= 1.0); }
+    kani::cover!(n == 30 && df == 6);
+    kani::cover!(n == df);
+}
+
+// @unit class=bounded tier=thorough mem=light bound="n,df<=31 (symbolic)" timeout=1200 fns=linfa_preprocessing::tf_idf_vectorization::TfIdfMethod::compute_idf
+#[kani::proof]
+#[kani::stub(alloc::fmt::format, fmt_stub)]
+#[kani::stub(f64::ln, ghost_ln64)]
+fn c17_idf_quot_nonsmooth() {
+    let (n, df): (usize, usize) = (kani::any(), kani::any());
+    kani::assume(n <= C17_Q && df <= C17_Q);
+    kani::assume(n > 0 || df > 0);                            // 0/0 = NaN is not recorded by the ghost; covered by c17_idf_nonsmooth
+    let r = TfIdfMethod::NonSmooth.compute_idf(n, df);
+    let arg = unsafe { H_LN_A[0] };
+    assert!(arg == (n as f64) / (df as f64));
+    if df == n && n > 0 { assert!(r == 1.0); }
+    kani::cover!(n == 30 && df == 7);
+    kani::cover!(n == df && n > 0);
+    kani::cover!(df == 0);
+}
+
+// @unit class=bounded tier=thorough mem=light bound="n,df<=31 (symbolic)" timeout=1200 fns=linfa_preprocessing::tf_idf_vectorization::TfIdfMethod::compute_idf
+#[kani::proof]
+#[kani::stub(alloc::fmt::format, fmt_stub)]
+#[kani::stub(f64::ln, ghost_ln64)]
+fn c17_idf_quot_textbook() {
+    let (n, df): (usize, usize) = (kani::any(), kani::any());
+    kani::assume(n <= C17_Q && df <= C17_Q);
+    let r = TfIdfMethod::Textbook.compute_idf(n, df);
+    let arg = unsafe { H_LN_A[0] };
+    assert!(arg == (n as f64) / ((df + 1) as f64));
+    if df + 1 == n { assert!(r == 0.0); }
+    if df >= n { assert!(r <= 0.0); }                         // "discards entries that appear in every document"
+    kani::cover!(n == 30 && df == 6);
+    kani::cover!(df + 1 == n);
+    kani::cover!(df == n && n > 0);
 }
